@@ -142,7 +142,8 @@ def run(ctx):
         mouts = [x for x in mout.split('\n') if x.startswith('OUT ')]
         inmap = {(x.split(' ')[1], x.split(' ')[2]): x for x in ins}
         outs_cmp = outs
-        mouts_cmp = [x for x in mouts if (x.split(' ')[1], x.split(' ')[2]) in {(y.split(' ')[1], y.split(' ')[2]) for y in outs}]
+        have = {(y.split(' ')[1], y.split(' ')[2]) for y in outs}
+        mouts_cmp = [x for x in mouts if (x.split(' ')[1], x.split(' ')[2]) in have]
         diffs, ncases = diff_lines(ctx, outs_cmp, mouts_cmp)
         r.evaluations += ncases
         r.traces += ncases - len(diffs)
@@ -173,9 +174,9 @@ def run(ctx):
             r.sample({'input_and_schedule': inmap.get(k), 'observed': outmap[k]})
     # ---- monitors on the running runtime
     sd = ctx.seed
-    run_tasks(ctx, r, h_tk, 'ledger', sd, 4000 if quick else 60000, 300 if quick else 1500)
-    run_tasks(ctx, r, h_tk, 'sliding', sd, 3000 if quick else 40000, 300 if quick else 1500)
-    run_tasks(ctx, r, h_tk, 'syncwait', sd, 3000 if quick else 40000, 300 if quick else 1500)
+    run_tasks(ctx, r, h_tk, 'ledger', sd, 4000 if quick else 20000, 300 if quick else 1500)
+    run_tasks(ctx, r, h_tk, 'sliding', sd, 3000 if quick else 15000, 300 if quick else 1500)
+    run_tasks(ctx, r, h_tk, 'syncwait', sd, 3000 if quick else 20000, 300 if quick else 1500)
     run_tasks(ctx, r, h_tk, 'timed', sd, 3 if quick else 20, 120 if quick else 600)
     # ---- F14: witness of os_timed_acquire_deadlock_refuted replayed on the real code (bounded)
     f14 = run_tasks(ctx, r, h_tk, 'f14', sd, 1, 60)
